@@ -33,9 +33,9 @@ CLAIMS = {
          "note": "No proof claimed yet (string-loop contracts planned).",
          "technique": B_TECH},
  "C15": {"level": "other",
-         "text": "Bounded only so far: template sharing by labelled-graph isomorphism, centring, all virtual-site kinds against the GROMACS construction formulas written out independently, optimisation verdict vs tolerances, user templates/volumes precedence, positivity.",
-         "note": "No proof claimed yet. Known findings K4-K6.",
-         "technique": B_TECH},
+         "text": 'Deductive: the six GROMACS constructions vs2, vs3, vs3fd, vs3fad, vs3out, vs4fdn and the centre of geometry vsn1 (1-4 defining atoms) of virtual_site_builder are proved equal, for all real positions and parameters with non-degenerate geometry, to the construction formulas of the GROMACS reference manual written out in the contract; the (section, function) dispatch table read from the source is the GROMACS numbering. Bounded: template sharing by labelled-graph isomorphism, centring, optimisation verdict vs tolerances, user templates/volumes precedence, positivity.',
+         "note": TRUST + "numpy dot/cross/norm/average modelled term by term over mathematical reals; sqrt, sin, cos uninterpreted. Template extraction, sharing and volumes are decided by the bounded unit only. Known findings K4-K6.",
+         "technique": P_TECH + "; " + B_TECH},
  "C16": {"level": "other",
          "text": "Deductive: _lennard_jones_force equals -V'(r) (point-ref)/r for the 12-6 potential (sympy re-derives V'), pbc_min_dist equals the norm of the per-component minimum images, and the metric laws (symmetric, periodic, <= direct distance, <= half box) follow from the frac lemma schemas. Bounded: every add/remove/consolidate history of length <= 2 (multi-tree world: <= 3 with the real add_positions' threshold lowered by AST rewrite) against a brute-force periodic reference.",
          "note": TRUST + "frac lemma schemas (range, negation, integer shift, frac u <= u for u >= 0) are certified against Mathlib in lean/Frac.lean when Lean is run (thorough); the representation invariant of the mutators is decided by the bounded unit only; scipy KDTree exercised, not verified.",
@@ -45,17 +45,17 @@ CLAIMS = {
          "note": TRUST + "Assumed (trusted) contracts inside the proof: NonBondEngine.add_positions/remove_positions over the abstract view posd (decided for the concrete engine by C16's units), update_positions as seen by its caller, search-tree facts of networkx dfs/bfs trees (each node target of one edge, parent-closed, rooted at the start residue), monotonicity of the ghost counting function (proved by a separate base/step lemma). Termination not claimed. BuildSystem._handle_random_walk/_compose_system are decided by the bounded unit only.",
          "technique": P_TECH + "; " + B_TECH},
  "C18": {"level": "other",
-         "text": "Bounded only so far: 7k build files with overlapping/adjacent/empty molecule-index and resid ranges on a topology with repeated names, 320 residue-spec strings with every subset of fields omitted, every connected partition of a 2-4 atom residue for -split, ligand attach/hand-back through the real BuildSystem.",
-         "note": "No proof claimed yet. Known findings K1-K3.",
-         "technique": B_TECH},
+         "text": 'Deductive: BuildDirector._tag_nodes is proved against the statement for every residue name and resid range (loop invariant over the node dictionary, unbounded): exactly the residues with the given name and a resid in [start, stop) receive the option, once, appended to earlier ones; all other residues and attributes are unchanged. Bounded: 7k build files with overlapping/adjacent/empty molecule-index and resid ranges on a topology with repeated names, 320 residue-spec strings with every subset of fields omitted, every connected partition of a 2-4 atom residue for -split, ligand attach/hand-back through the real BuildSystem.',
+         "note": TRUST + "Parsing of the build file lines, find_atoms for -start/-split and ligand annotation are decided by the bounded unit only. Known findings K1-K3.",
+         "technique": P_TECH + "; " + B_TECH},
  "C19": {"level": "other",
-         "text": "Bounded (exhaustive within the bound): every DNA sequence of length 1-5 (thorough 7), linear through three input routes and circular, against the statement: 2n residues, strand one unchanged, residue n+k complements residue n+1-k with 5'/3' exchanged, labels copied, strands separate, double complement recovers the input, unknown names rejected.",
-         "note": "No proof claimed: complement_dsDNA is a generator over a graph it mutates (outside pyvc's subset).",
-         "technique": B_TECH},
+         "text": "Deductive (table lemma): BASE_LIBRARY read from the real source is an involution on the nucleobase names, closed, without fixed points, and pairs A-T and G-C for every 5'/3'/internal variant. Bounded (exhaustive within the bound): every DNA sequence of length 1-5 (thorough 7), linear through three input routes and circular, against the statement: 2n residues, strand one unchanged, residue n+k complements residue n+1-k with 5'/3' exchanged, labels copied, strands separate, double complement recovers the input, unknown names rejected.",
+         "note": "complement_dsDNA itself is a generator over a graph it mutates (outside pyvc's subset): decided by the bounded unit only.",
+         "technique": P_TECH + "; " + B_TECH},
  "C20": {"level": "other",
-         "text": "Bounded: an exception is injected on entry to and on return from every stage of gen_params (13), gen_coords (16) and gen_seq (6) with the output path absent / present / present with an existing backup; the whole scratch directory is compared byte-wise before and after; success leaves the complete file and a GROMACS-style backup.",
-         "note": "No proof claimed yet (static effect-ordering obligations planned). vermouth DeferredFileWriter exercised, not verified.",
-         "technique": B_TECH},
+         "text": 'Deductive (static effect order): for gen_params, gen_coords and gen_seq, read from the real source on every run, no statement that can write the output file precedes the last processing stage on any path, and the write goes through the deferred writer inside the with-block. Bounded: an exception is injected on entry to and on return from every stage of gen_params (13), gen_coords (16) and gen_seq (6) with the output path absent / present / present with an existing backup; the whole scratch directory is compared byte-wise before and after; success leaves the complete file and a GROMACS-style backup.',
+         "note": "vermouth DeferredFileWriter exercised by the bounded unit, not verified; the effect classification of callees (which functions may write) is a stated table in contracts/effects.py.",
+         "technique": P_TECH + "; " + B_TECH},
 }
 
 CLAIMS.update({
